@@ -36,23 +36,27 @@ theorem own_of_inhOK {S : Schema} {cur : Option Op} (hcur : InhOK cur) {t : DNod
     rw [ho, Option.some.inj this]
   · exact ownOp_of_effOp hcur hop hne
 
-/-- the operation the nodes of a source level inherit: `none` (or none at all), or `delete` (the copies inside a deleted subtree) -/
-def SrcOK (sin : Option Op) : Prop := InhOK sin ∨ sin = some .delete
+/-- the operation the nodes of a source level inherit: `none` (or none at all), or `delete` / `create` (the copies inside a deleted /
+created subtree) -/
+def SrcOK (sin : Option Op) : Prop := InhOK sin ∨ sin = some .delete ∨ sin = some .create
 
-/-- a leaf / leaf-list node of an exact literal source level has an operation of its own, or it is a copy inside a deleted subtree -/
+/-- a leaf / leaf-list node of an exact literal source level has an operation of its own, or it is a copy inside a deleted / created
+subtree -/
 theorem src_own_or_plain {S : Schema} {sin : Option Op} (hs : SrcOK sin) {src : DNode} {e : Option DNode} {sop : Op}
     (hst : src.isTerm = true) (hsex : exactE S P sin e src = true) (hls : litN src = true) (hsop : effOp src sin = some sop) :
-    (∃ op, ownOp src = some op) ∨ (src.metas = [] ∧ sop = .delete) := by
-  rcases hs with hs | rfl
+    (∃ op, ownOp src = some op) ∨ (src.metas = [] ∧ (sop = .delete ∨ sop = .create)) := by
+  rcases hs with hs | hs
   · exact Or.inl (own_of_exact_lit hs hst hsex hls)
   · cases ho : ownOp src with
     | some op => exact Or.inl ⟨op, rfl⟩
     | none =>
       right
-      have h2 : sop = .delete := by
-        have : effOp src (some .delete) = some .delete := by simp [effOp, ho]
+      have h2 : sop = .delete ∨ sop = .create := by
+        have : effOp src sin = sin := by simp [effOp, ho]
         rw [hsop] at this
-        exact Option.some.inj this
+        rcases hs with rfl | rfl
+        · exact Or.inl (Option.some.inj this)
+        · exact Or.inr (Option.some.inj this)
       refine ⟨?_, h2⟩
       cases src with
       | inner => simp [DNode.isTerm] at hst
@@ -917,7 +921,7 @@ theorem merge_matched_inner_nd {S : Schema} (K : KeyOrderOn S P) {o : MergeOpts}
   have hdk : dk S true ks = noKeys S ks := by simp [dk]
   have hmemT : ∀ c ∈ noKeys S kt, explNone c ∈ (noKeys S kt).map explNone := fun c hc => List.mem_map_of_mem hc
   obtain ⟨Mk, Ek', Yk', hmk, _, _, _, hTk', _⟩ := IH k true (some .delete) (some .delete) true (keysOf S kt)
-    ((noKeys S kt).map explNone) x.kids y.kids Ek (Or.inr rfl) hks hgxk hgyk hkYk
+    ((noKeys S kt).map explNone) x.kids y.kids Ek (Or.inr (Or.inl rfl)) hks hgxk hgyk hkYk
     (by
       intro kk hkk
       refine ⟨keysOf_all_key S kt kk hkk, ?_⟩
@@ -1344,7 +1348,7 @@ theorem merge_matched_inner_cd {S : Schema} (K : KeyOrderOn S P) {o : MergeOpts}
   have hdk : dk S true ks = noKeys S ks := by simp [dk]
   have hexks : exactK S P (some .delete) y.kids true ks = true := exactK_plain_delete K hgks hpl hn
   obtain ⟨Mk, Ek', Yk', hmk, hYk', hgYk', _, hTk', hRk'⟩ := IH k true (some .none) (some .delete) true (keysOf S kt) Tk L' y.kids Ek
-    (Or.inr rfl) hks hgL' hgyk hkYk
+    (Or.inr (Or.inl rfl)) hks hgL' hgyk hkYk
     (by
       intro kk hkk
       refine ⟨keysOf_all_key S kt kk hkk, ?_⟩
